@@ -314,3 +314,13 @@ Example c09_nonvacuous :
   /\ response_cookies (fst (run_ops ex_H (fun _ => 2%nat) (fun _ => 63%N) ex_cfg (ex_req (Some ex_cookie) 1005) st0
                              [ORemember (VInt 5) None []; OIdentify])) = [].
 Proof. vm_compute. repeat split. Qed.
+
+(* beyond eight hex digits the round trip is false: nine digits are written, eight are read back *)
+Definition ex_cookie_late : text :=
+  match remember ex_H ex_cfg (ex_req None 4294967296) (VStr [98; 111; 98]%N) None [] with
+  | Some [k] => match ck_value k with Some v => v | None => [] end
+  | _ => []
+  end.
+Example hex8_overflow_refuted :
+  identify_pre ex_H (fun _ => 2%nat) (fun _ => 63%N) ex_cfg (ex_req (Some ex_cookie_late) 4294967296) = INone.
+Proof. vm_compute. reflexivity. Qed.
